@@ -4,13 +4,13 @@
 package rig
 
 import (
-	"unsafe"
 	"bytes"
 	"context"
 	"errors"
 	"fmt"
 	"sync"
 	"time"
+	"unsafe"
 
 	"github.com/hslam/rpc"
 	"verif/harness/memnet"
